@@ -76,6 +76,8 @@ class VerifEnv:
         self.loop_specs = {}
         for c in contracts:
             for ordinal, spec in c.loops.items():
+                if ordinal == '__no_global__':
+                    continue
                 if isinstance(ordinal, tuple):
                     self.loop_specs[ordinal] = spec
                 else:
